@@ -203,8 +203,30 @@ pub fn case(seed: u64, st: &mut Stats) {
     for s in &spec.settings {
         st.count(&format!("setting.{:?}", s));
     }
+    {
+        fn widest(c: &CmdSpec) -> usize {
+            c.subs.iter().map(widest).max().unwrap_or(0).max(c.args.len())
+        }
+        fn depth(c: &CmdSpec) -> usize {
+            1 + c.subs.iter().map(depth).max().unwrap_or(0)
+        }
+        if widest(&spec) > 64 {
+            st.count("shape.more-than-64-arguments-in-a-command");
+        }
+        if depth(&spec) > 4 {
+            st.count("shape.more-than-4-levels");
+        }
+    }
     let fp0 = hash_str(&format!("{:?}", spec));
-    let max_tokens = if st.tier_thorough && rng.chance(1, 8) { 64 } else { 10 };
+    let max_tokens = match rng.below(64) {
+        0 => 400,
+        1..=4 => 64,
+        5..=11 if st.tier_thorough => 64,
+        _ => 10,
+    };
+    if max_tokens > 10 {
+        st.count("argv.long-vectors");
+    }
     let mut reused = cmd.clone();
     let n = if st.tier_thorough { 8 } else { 5 };
     for k in 0..n {
